@@ -87,6 +87,11 @@ check("C16", "exploration",
   "Declared machines = the setFSM tables of bitxhub-core appchain/service/node/rule managers and contracts/role.go, transcribed in model/lifecycle.go; listing a begin-failed request for its destination chain is not judged (the statement does not forbid it).",
   "runtime monitoring: three-valued gating oracle + declared-FSM trace checker over per-block status queries", "DESIGN.md §5 C16, appendix B")
 
+check("C11", "fault_enumeration",
+  "For commit heights {1 (genesis), 2, 5, 11, 12 (journal pruning), 23} of a recorded mixed history every whole-component crash image (state store PRE/POST/MID x chain index PRE/POST x each of the five blockfile tables PRE/POST: 128-192 images per height) is composed from real data directories and probed in a fresh process, plus 14 real SIGKILLs at the hook points of the persist path with the other writers delayed. Oracle: opens, height in {h,h+1}, head readable and equal to the reference, state version == head, state store == the reference's, nothing below the head lost, continuing with the reference blocks reproduces its hashes. One family of images (chain index committed, blockfile append lost) is recorded as known finding; two other families were repaired.",
+  "Only process death is modelled (no loss of un-fsynced data after later data survived); LevelDB-internal torn records are trusted to LevelDB; intra-table torn writes are left to the blockfile's own repair.",
+  "runtime monitoring + fault injection: exhaustive composition of per-component crash images and SIGKILL at hook points, each recovered by the real ledger in a child process and compared with a never-crashed reference", "DESIGN.md §5 C11")
+
 ALL = [f"C{i:02d}" for i in range(1, 21)]
 REASON_PENDING = "check not built yet in this round; see DESIGN.md §5 for the planned monitor (no claim is made until the check runs clean on the unchanged tree)"
 
